@@ -411,6 +411,42 @@ def oldsparse_mutants(rnd, n):
     return out
 
 
+def oldsparse_chain_cuts():
+    """old-GNU sparse entries whose map is FULL (4 valid pairs in the header, 21 valid pairs in every extension record,
+    so that the reader does follow `isextended`) with chains of 0..3 extension records that ALL claim `isextended`
+    (also the last one present), cut at every 512-byte boundary from the end of the main header on and inside every
+    record: the reader must meet end-of-file where the flag promised one more record -- a short read of 0 bytes exactly
+    on a record boundary, and of 1 / 256 / 504 / 505 / 511 bytes inside one -- and give up.  Also the same chains with
+    a proper last record (isextended = 0) and the flag bytes 0xff / 0x80.  list of (tag, bytes)"""
+    out = []
+    for k in range(4):
+        for flag in (b"\1", b"\xff", b"\x80"):
+            for last_claims in (True, False):
+                if not last_claims and flag != b"\1":
+                    continue
+                ext = [[((4 + 21 * j + i) * 1024, 512 if i == 0 else 0) for i in range(21)] for j in range(k)]
+                data = b"a" * 512 * (4 + k)
+                e = old_sparse_entry(b"sp", [(i * 1024, 512) for i in range(4)], (5 + 21 * k) * 1024, data,
+                                     ext=ext, isext=flag if (k > 0 or last_claims) else b"\0")
+                e = bytearray(e)
+                for j in range(k):
+                    if j + 1 < k or last_claims:
+                        e[512 * (j + 1) + 504] = flag[0]
+                e = bytes(e) + file_entry(b"after", b"1") + END
+                tag = "osc%d%s%s:" % (k, flag.hex(), "" if last_claims else "p")
+                out.append((tag + "whole", e))
+                hdr_end = 512 * (k + 1)
+                cuts = set()
+                for b in range(512, len(e) + 1, 512):
+                    cuts.add(b)
+                    if b <= hdr_end + 512 and flag == b"\1":
+                        cuts.update(b + d for d in (1, 256, 504, 505, 511))
+                for c in sorted(cuts):
+                    if c < len(e):
+                        out.append((tag + "cut%d" % c, e[:c]))
+    return out
+
+
 def truncations(data, step=1, limit=None):
     lim = len(data) if limit is None else min(limit, len(data))
     return [data[:i] for i in range(0, lim + 1, step)]
@@ -483,6 +519,7 @@ def tar_cases(rnd, tier):
         cases.append(("sparse10", m))
     for m in oldsparse_mutants(rnd, 200 if q else 4000):
         cases.append(("oldsparse", m))
+    cases += oldsparse_chain_cuts()
     # truncation at every offset of small archives
     small = [b for b in bases if len(b[1]) <= 4096]
     pick = small if not q else [small[(rnd.randrange(len(small)) + i) % len(small)] for i in range(2)]
